@@ -69,55 +69,80 @@ Proof.
   rewrite Nat2N.id. apply items_ok. exact H.
 Qed.
 
-(* ---- the ordered change script ---- *)
+(* strict Option (bincode): tag 0 = None, 1 = Some, anything else is an error *)
+Definition de_option_strict {A} (de: dec A) : dec (option A) := fun b =>
+  match b with
+  | [] => None
+  | t :: r => if (t =? 1)%N then match de r with Some (x, rest) => Some (Some x, rest) | None => None end
+              else if (t =? 0)%N then Some (None, r) else None
+  end.
+Lemma option_strict_ok {A} (ser: A -> bytes) (de: dec A) : codec_ok ser de -> codec_ok (ser_option ser) (de_option_strict de).
+Proof. intros H [x|] rest; cbn; [rewrite H; reflexivity|reflexivity]. Qed.
+
+(* ---- the ordered change script, for both wire formats ----
+   TW     = width of the variant tag in bytes (1: the hand-written nanoserde impls write a u8; 4: bincode writes serde's u32 variant index)
+   STRICT = how an Option tag other than 0/1 is decoded (nanoserde: None; bincode: error) *)
 Section Script.
 Context {T: Type} (ser_T: T -> bytes) (de_T: dec T).
-Hypothesis T_ok : codec_ok ser_T de_T.
-(* discriminants as extracted by the translator; the side condition is that they are pairwise distinct bytes *)
+Variable Tvalid : T -> Prop.                       (* the element values the element codec represents (e.g. the i64 range) *)
+Hypothesis T_ok : forall x rest, Tvalid x -> de_T (ser_T x ++ rest) = Some (x, rest).
+Variable TW : nat.
+Variable STRICT : bool.
+(* discriminants as extracted by the translator; side conditions: pairwise distinct and representable in TW bytes *)
 Variables (D_REPLACE D_INSERT D_DELETE D_SWAP: N).
 Hypothesis D_distinct : NoDup [D_REPLACE; D_INSERT; D_DELETE; D_SWAP].
+Hypothesis D_fit : Forall (fun d => (d < 256 ^ N.of_nat TW)%N) [D_REPLACE; D_INSERT; D_DELETE; D_SWAP].
 
 Inductive change := CReplace (v: T) (i: N) | CInsert (v: T) (i: N) | CDelete (i: N) (r: option N) | CSwap (a b: N).
 Definition usize_ok (n: N) := (n < 256 ^ 8)%N.
 Definition change_ok (c: change) : Prop :=
   match c with
-  | CReplace _ i | CInsert _ i => usize_ok i
+  | CReplace v i | CInsert v i => Tvalid v /\ usize_ok i
   | CDelete i r => usize_ok i /\ match r with Some j => usize_ok j | None => True end
   | CSwap a b => usize_ok a /\ usize_ok b
   end.
+Definition ser_tag (d: N) : bytes := ser_le TW d.
+Definition de_tag : dec N := de_le TW.
+Definition de_opt {A} (de: dec A) : dec (option A) := if STRICT then de_option_strict de else de_option de.
 
 Definition ser_change (c: change) : bytes :=
   match c with
-  | CReplace v i => ser_u8 D_REPLACE ++ ser_T v ++ ser_usize i
-  | CInsert v i => ser_u8 D_INSERT ++ ser_T v ++ ser_usize i
-  | CDelete i r => ser_u8 D_DELETE ++ ser_usize i ++ ser_option ser_usize r
-  | CSwap a b => ser_u8 D_SWAP ++ ser_usize a ++ ser_usize b
+  | CReplace v i => ser_tag D_REPLACE ++ ser_T v ++ ser_usize i
+  | CInsert v i => ser_tag D_INSERT ++ ser_T v ++ ser_usize i
+  | CDelete i r => ser_tag D_DELETE ++ ser_usize i ++ ser_option ser_usize r
+  | CSwap a b => ser_tag D_SWAP ++ ser_usize a ++ ser_usize b
   end.
 Definition de_change : dec change := fun b =>
-  match de_u8 b with
+  match de_tag b with
   | None => None
   | Some (tag, r) =>
      if (tag =? D_REPLACE)%N then match de_T r with Some (v, r1) => match de_usize r1 with Some (i, r2) => Some (CReplace v i, r2) | None => None end | None => None end
      else if (tag =? D_INSERT)%N then match de_T r with Some (v, r1) => match de_usize r1 with Some (i, r2) => Some (CInsert v i, r2) | None => None end | None => None end
-     else if (tag =? D_DELETE)%N then match de_usize r with Some (i, r1) => match de_option de_usize r1 with Some (o, r2) => Some (CDelete i o, r2) | None => None end | None => None end
+     else if (tag =? D_DELETE)%N then match de_usize r with Some (i, r1) => match de_opt de_usize r1 with Some (o, r2) => Some (CDelete i o, r2) | None => None end | None => None end
      else if (tag =? D_SWAP)%N then match de_usize r with Some (a, r1) => match de_usize r1 with Some (b0, r2) => Some (CSwap a b0, r2) | None => None end | None => None end
      else None
   end.
 
 Lemma usize_rt n rest : usize_ok n -> de_usize (ser_usize n ++ rest) = Some (n, rest).
 Proof. intros H. apply le_roundtrip. exact H. Qed.
+Lemma tag_rt d rest : In d [D_REPLACE; D_INSERT; D_DELETE; D_SWAP] -> de_tag (ser_tag d ++ rest) = Some (d, rest).
+Proof. intros H. apply le_roundtrip. rewrite Forall_forall in D_fit. apply D_fit. exact H. Qed.
+Lemma opt_rt (r: option N) rest : match r with Some j => usize_ok j | None => True end -> de_opt de_usize (ser_option ser_usize r ++ rest) = Some (r, rest).
+Proof.
+  intros H. unfold de_opt. destruct r as [j|]; destruct STRICT; cbn [ser_option de_option de_option_strict app]; try reflexivity;
+  rewrite N.eqb_refl, usize_rt by exact H; reflexivity.
+Qed.
 
 Lemma change_roundtrip c rest : change_ok c -> de_change (ser_change c ++ rest) = Some (c, rest).
 Proof.
   assert (Dn: D_REPLACE <> D_INSERT /\ D_REPLACE <> D_DELETE /\ D_REPLACE <> D_SWAP /\ D_INSERT <> D_DELETE /\ D_INSERT <> D_SWAP /\ D_DELETE <> D_SWAP).
   { inversion D_distinct as [|? ? N1 R1]; subst. inversion R1 as [|? ? N2 R2]; subst. inversion R2 as [|? ? N3 R3]; subst. cbn in *. intuition congruence. }
   destruct Dn as (N1 & N2 & N3 & N4 & N5 & N6).
-  destruct c as [v i|v i|i r|a b]; cbn [change_ok ser_change]; intros H; unfold de_change, ser_u8; cbn [app de_u8].
-  - rewrite N.eqb_refl, <- app_assoc, T_ok, usize_rt by exact H. reflexivity.
-  - destruct (N.eqb_spec D_INSERT D_REPLACE); [congruence|]. rewrite N.eqb_refl, <- app_assoc, T_ok, usize_rt by exact H. reflexivity.
+  destruct c as [v i|v i|i r|a b]; cbn [change_ok ser_change]; intros H; unfold de_change; rewrite <- app_assoc, tag_rt by (cbn; tauto).
+  - destruct H as [Hv H]. rewrite N.eqb_refl, <- app_assoc, T_ok by exact Hv. rewrite usize_rt by exact H. reflexivity.
+  - destruct H as [Hv H]. destruct (N.eqb_spec D_INSERT D_REPLACE); [congruence|]. rewrite N.eqb_refl, <- app_assoc, T_ok by exact Hv. rewrite usize_rt by exact H. reflexivity.
   - destruct (N.eqb_spec D_DELETE D_REPLACE); [congruence|]. destruct (N.eqb_spec D_DELETE D_INSERT); [congruence|]. rewrite N.eqb_refl.
-    destruct H as [H1 H2]. rewrite <- app_assoc, usize_rt by exact H1.
-    destruct r as [j|]; cbn [ser_option de_option app]; [rewrite N.eqb_refl, usize_rt by exact H2; reflexivity|reflexivity].
+    destruct H as [H1 H2]. rewrite <- app_assoc, usize_rt by exact H1. rewrite opt_rt by exact H2. reflexivity.
   - destruct (N.eqb_spec D_SWAP D_REPLACE); [congruence|]. destruct (N.eqb_spec D_SWAP D_INSERT); [congruence|]. destruct (N.eqb_spec D_SWAP D_DELETE); [congruence|]. rewrite N.eqb_refl.
     destruct H as [H1 H2]. rewrite <- app_assoc, usize_rt by exact H1. rewrite usize_rt by exact H2. reflexivity.
 Qed.
